@@ -155,8 +155,8 @@ def with_closures(nat):
 
 
 # ---- reference rendering
-def ref_render(items, entry, start, depth):
-    """entry: byte list of the path (symbolic bytes allowed); returns expected byte list"""
+def ref_render(items, entry, start, depth, h_value=None):
+    """entry: byte list of the path (symbolic bytes allowed); returns expected byte list (h_value: a deviating %H, used to classify)"""
     out = []
     for text, kind, payload in items:
         if kind == "lit":
@@ -165,7 +165,7 @@ def ref_render(items, entry, start, depth):
             out.append(payload)
         else:
             d, w = payload
-            val = directive_value(d, entry, start, depth)
+            val = directive_value(d, entry, start, depth) if not (d == "H" and h_value is not None) else list(h_value.encode())
             left = w.startswith("-")
             digits = w.lstrip("-")
             width = int(digits) if digits else 0
@@ -276,9 +276,13 @@ def explore(n_items, shape_name, funcs, index, enums, tier="quick", vocab=None):
                 res["checks"] += 1
                 w = c7_prove_eq(m, got, exp)
                 if w:
-                    bad.append("format %r on depth-%d entry of start %r: %s" % (fmt, d, start, w))
+                    cls = "other"
+                    if d > 0 and start.endswith("/") and any(k == "dir" and pl[0] == "H" for _t, k, pl in chosen):
+                        if c7_prove_eq(m, got, ref_render(chosen, p, start, d, h_value=start.rstrip("/") or "/")) is None:
+                            cls = "%H of an entry below a starting point given with a trailing slash lacks the slash"
+                    bad.append((cls, "format %r on depth-%d entry of start %r: %s" % (fmt, d, start, w)))
                 if r is not True:
-                    bad.append("-printf returned %r" % (r,))
+                    bad.append(("other", "-printf returned %r" % (r,)))
         except RustPanic as e:
             res["violations"].append({"what": "panic: %s (format %r)" % (str(e)[:80], fmt), "format": fmt})
             res["paths"] += 1
@@ -290,8 +294,8 @@ def explore(n_items, shape_name, funcs, index, enums, tier="quick", vocab=None):
             continue
         res["paths"] += 1
         res["formats"] += 1
-        for w in bad:
-            res["violations"].append({"what": w, "format": fmt, "start": start, "shape": shape_name})
+        for cls, w in bad:
+            res["violations"].append({"what": w, "class": cls, "format": fmt, "start": start, "shape": shape_name})
         if len(res["samples"]) < 3 and any(k == "dir" for _t, k, _p in chosen):
             res["samples"].append({"format": fmt, "start": start})
     res["wall_s"] = round(time.time() - t0, 2)
